@@ -105,6 +105,11 @@ def run(ctx):
                 if stage == 6 and w.A.sas() and w.A.sas()[0].child_sas:
                     h.op('expire', 'A', w.A.sas()[0].child_sas[0].inbound_spi, False)
                 victim = w.A if victim_name == 'A' else w.B
+                # a second, legitimate ACQUIRE for the same peer arrives at this very stage: it has to be served too
+                extra = 0
+                if victim_name == 'A':
+                    h.op('acquire', 'A', 4100 + stage)
+                    extra = 1
                 r2 = __import__('random').Random(seed)
                 events = [('dg',) + x for x in hostile_datagrams(h, victim, r2)] + [('ev',) + x for x in hostile_events(h, victim, r2)]
                 worst = 0
@@ -132,12 +137,17 @@ def run(ctx):
                         victim.escaped.clear()
                         victim._reported = 0
                 res.extra['max_lines_per_iteration'] = max(res.extra.get('max_lines_per_iteration', 0), worst)
+                for ep in (w.A, w.B):            # what the hostile events made the loop contain is expected
+                    ep._contained_reported = len(ep.contained)
+                res.count('contained-by-loop', len(victim.contained))
                 # the legitimate session must still complete, and keep serving
                 # (replies to hostile IKE_SA_INIT copies etc. are in flight too: deliver everything)
                 done = h.settle(120)
                 good = [s for s in w.A.sas() if int(s.state) == 10 and s.child_sas]
                 goodb = [s for s in w.B.sas() if int(s.state) == 10 and s.child_sas]
+                fallback = False
                 if not good or not goodb:
+                    fallback = True
                     # a forged IKE_SA_INIT response may abort a half-open exchange (the protocol cannot prevent that before
                     # keys exist); what must hold is that the daemon keeps serving: the next attempt succeeds
                     h.op('tick', 25)
@@ -149,6 +159,10 @@ def run(ctx):
                     res.fail('legitimate-session-lost', 'after the hostile events of stage %d at %s the legitimate session did not complete: A %s, B %s'
                              % (stage, victim_name, [s.state.name for s in w.A.sas()], [s.state.name for s in w.B.sas()]),
                              {'seed': seed, 'stage': stage, 'victim': victim_name, 'ops': S.ser_ops(h.ops)})
+                elif extra and not fallback and max(len(s.child_sas) for s in good) < 1 + extra + (1 if stage == 5 else 0):
+                    res.fail('acquire-not-served', 'an ACQUIRE that arrived at stage %d of the session was never served: %d CHILD_SA(s)'
+                             % (stage, max(len(s.child_sas) for s in good)), {'seed': seed, 'stage': stage, 'victim': victim_name,
+                                                                              'ops': S.ser_ops(h.ops)})
                 for key, what, at in h.findings[:2]:
                     res.fail(key, what, {'seed': seed, 'stage': stage, 'victim': victim_name, 'ops': S.ser_ops(h.ops[:at + 1])})
     # transmission failure at every send, kernel refusal at every NEWSA of a complete session
